@@ -39,35 +39,79 @@ where
     }
 }
 
+// ---- exact models of four std routines --------------------------------------------------------
+// The planner fills Vecs created inside the function by *conditional* pushes, so their len is a
+// symbolic term.  Measured on 2-3 segments with the real std code: (a) `sort_by_key` enters driftsort /
+// quicksort recursion (symex > 10 min), (b) `push` drags in grow_amortized -> realloc/memcpy of
+// symbolic size (unbounded arrays, solver > 30 GB), (c) `<[u16]>::contains` unrolls a 32-lane chunked
+// fold (same effect).  The four replacements below are behaviourally identical to the std routines
+// (stable sort and `contains` are functions of their input; a Vec cannot observe its capacity) and
+// are inactive in the native replay, which runs the real std code.
+/// `Vec::push` without the growth path (capacity comes from `vec_new_cap8`; exhaustion is an
+/// assertion).  With a symbolic `len` CBMC cannot decide `len == cap`, so every real `push` drags in
+/// `grow_amortized` -> `realloc`/`memcpy` of symbolic size (unbounded arrays in the array theory).
+pub fn push_no_grow<T, A: std::alloc::Allocator>(v: &mut Vec<T, A>, value: T) {
+    let len = v.len();
+    assert!(len < v.capacity(), "harness Vec capacity (8) exhausted");
+    unsafe {
+        std::ptr::write(v.as_mut_ptr().add(len), value);
+        v.set_len(len + 1);
+    }
+}
+
+/// `<[u16]>::contains` as a plain loop (std's version is a 32-lane chunked fold whose dead chunk loop
+/// still gets unrolled on a symbolic-length slice).
+pub fn contains_model<T: PartialEq>(s: &[T], x: &T) -> bool {
+    let mut k = 0;
+    while k < s.len() {
+        if s[k] == *x {
+            return true;
+        }
+        k += 1;
+    }
+    false
+}
+
+/// `Vec::new()` -> `Vec::with_capacity(8)`: same contents and behaviour, but capacity and buffer
+/// pointer are concrete from the start instead of depending on which conditional pushes happened.
+pub fn vec_new_cap8<T>() -> Vec<T> {
+    Vec::with_capacity(8)
+}
+
 /// Integer statement of "frozen, non-empty, utilisation below the threshold": `t` = threshold *
 /// segment_size, exact because both are powers of two / dyadic and < 2^53.
 fn eligible(frozen: bool, wp: u64, t: u64) -> bool {
     frozen && wp > 0 && wp < t
 }
 
-/// Checks that hold for every plan (everything except "destination's own bytes are respected").
-fn check_plan<const N: usize>(plan: &CompactionPlan, frozen: &[bool; N], wp: &[u64; N], size: u64, t: u64, a: usize, b: usize) {
+/// Checks that hold for every plan (everything except "the destination's own bytes are respected",
+/// which has its own harnesses below).  `a`, `b` are symbolic move indices ("for all moves").
+fn check_plan<const N: usize>(plan: &CompactionPlan, frozen: &[bool; N], wp: &[u64; N], size: u64, t: Option<u64>, a: usize, b: usize) {
     let n = plan.moves.len();
-    assert!(n < N || N == 0, "more moves than segments - 1");
-    // total_bytes = sum of lengths (lengths are < size <= 2^40, no overflow)
+    assert!(n < N, "more moves than segments - 1");
     let mut sum = 0u64;
     let mut k = 0;
     while k < N {
         if k < n {
-            sum += plan.moves[k].length;
+            sum = sum.wrapping_add(plan.moves[k].length);
         }
         k += 1;
     }
     assert!(plan.total_bytes == sum, "total_bytes is not the sum of the move lengths");
+    assert!(plan.source_segments.len() <= n && plan.target_segments.len() <= n, "bookkeeping lists longer than the move list");
     if a < n {
         let m = &plan.moves[a];
         let (s, d) = (m.source_segment as usize, m.dest_segment as usize);
         assert!(s < N && d < N, "move names a segment outside the population");
-        assert!(eligible(frozen[s], wp[s], t), "source is not a frozen non-empty segment below the threshold");
-        assert!(eligible(frozen[d], wp[d], t), "destination is not a frozen segment below the threshold");
+        assert!(frozen[s] && wp[s] > 0, "source is not a frozen non-empty segment");
+        assert!(frozen[d] && wp[d] > 0, "destination is not a frozen non-empty segment");
+        if let Some(t) = t {
+            assert!(wp[s] < t, "source is not below the utilisation threshold");
+            assert!(wp[d] < t, "destination is not below the utilisation threshold");
+        }
         assert!(s != d, "segment moved into itself");
         assert!(m.source_offset == 0 && m.length == wp[s], "move does not carry exactly the source's used bytes");
-        assert!(m.dest_offset <= size && m.length <= size - m.dest_offset, "move runs beyond segment_size");
+        assert!(m.dest_offset as u128 + m.length as u128 <= size as u128, "move runs beyond segment_size");
         // bookkeeping lists name the segments of every move
         let (mut in_src, mut in_dst) = (false, false);
         let mut k = 0;
@@ -85,28 +129,81 @@ fn check_plan<const N: usize>(plan: &CompactionPlan, frozen: &[bool; N], wp: &[u
         if b < n && b != a {
             let o = &plan.moves[b];
             assert!(o.source_segment != m.source_segment, "segment is the source of two moves");
-            assert!(o.dest_segment != m.source_segment, "segment is both a source and a destination");
             if o.dest_segment == m.dest_segment {
-                // both ends were shown <= size above for an arbitrary move, so no overflow here
                 assert!(
-                    m.dest_offset + m.length <= o.dest_offset || o.dest_offset + o.length <= m.dest_offset,
+                    m.dest_offset as u128 + m.length as u128 <= o.dest_offset as u128
+                        || o.dest_offset as u128 + o.length as u128 <= m.dest_offset as u128,
                     "two moves into one destination overlap"
                 );
             }
         }
     }
-    assert!(plan.source_segments.len() <= n && plan.target_segments.len() <= n, "bookkeeping lists longer than the move list");
 }
 
-macro_rules! plan_general {
-    ($name:ident, $n:expr, $uw:literal, $size:expr, $thr:expr, $t:expr) => {
+/// "a segment that was emptied as a source is not used as a destination (and vice versa)"
+fn check_no_reuse(plan: &CompactionPlan, a: usize, b: usize) -> bool {
+    let n = plan.moves.len();
+    !(a < n && b < n) || plan.moves[b].dest_segment != plan.moves[a].source_segment
+}
+
+/// The part of "a destination's own bytes are respected" that the current planner honours: every
+/// destination other than the plan's first one (the first one is the subject of the live-bytes /
+/// overfill harnesses).  `a` = move index, `d` = segment index, both symbolic.
+fn check_later_destinations<const N: usize>(plan: &CompactionPlan, wp: &[u64; N], size: u64, a: usize, d: usize) {
+    let n = plan.moves.len();
+    if n == 0 {
+        return;
+    }
+    let first = plan.moves[0].dest_segment;
+    if a < n && plan.moves[a].dest_segment != first {
+        let m = &plan.moves[a];
+        let dd = m.dest_segment as usize;
+        assert!(dd < N && m.dest_offset >= wp[dd], "move into a later destination targets bytes that destination already uses");
+    }
+    if d < N && d != first as usize {
+        let mut incoming = 0u128;
+        let mut k = 0;
+        while k < N {
+            if k < n && plan.moves[k].dest_segment as usize == d {
+                incoming += plan.moves[k].length as u128;
+            }
+            k += 1;
+        }
+        assert!(incoming == 0 || wp[d] as u128 + incoming <= size as u128, "later destination filled beyond segment_size");
+    }
+}
+
+fn count_eligible<const N: usize>(frozen: &[bool; N], wp: &[u64; N], t: u64) -> usize {
+    let mut elig = 0;
+    let mut k = 0;
+    while k < N {
+        if eligible(frozen[k], wp[k], t) {
+            elig += 1;
+        }
+        k += 1;
+    }
+    elig
+}
+
+macro_rules! plan_harness {
+    ($name:ident, $uw:literal, $body:block) => {
         #[kani::proof]
         #[kani::unwind($uw)]
         #[kani::stub(alloc::slice::stable_sort, crate::c18_plan::stable_sort_model)]
+        #[kani::stub(std::vec::Vec::new, crate::c18_plan::vec_new_cap8)]
+        #[kani::stub(std::vec::Vec::push, crate::c18_plan::push_no_grow)]
+        #[kani::stub(<[u16]>::contains, crate::c18_plan::contains_model)]
         #[kani::stub(tracing_core::callsite::DefaultCallsite::interest, crate::tracing_stubs::interest_never)]
         #[kani::stub(tracing::__macro_support::__is_enabled, crate::tracing_stubs::is_enabled_false)]
         #[kani::stub(tracing_core::event::Event::dispatch, crate::tracing_stubs::dispatch_nop)]
-        fn $name() {
+        fn $name() $body
+    };
+}
+
+// ---- everything except the destination's own bytes ----------------------------------------------
+macro_rules! plan_general {
+    ($name:ident, $n:expr, $uw:literal, $size:expr, $thr:expr, $t:expr) => {
+        plan_harness!($name, $uw, {
             const N: usize = $n;
             const SIZE: u64 = $size;
             const T: u64 = $t;
@@ -116,47 +213,214 @@ macro_rules! plan_general {
             let b: usize = kani::any();
             let segs = population::<N>(&frozen, &wp);
             let plan = plan_archive_merge(&segs, $thr, SIZE);
-            check_plan::<N>(&plan, &frozen, &wp, SIZE, T, a, b);
-            let mut elig = 0;
-            let mut k = 0;
-            while k < N {
-                if eligible(frozen[k], wp[k], T) {
-                    elig += 1;
-                }
-                k += 1;
+            check_plan::<N>(&plan, &frozen, &wp, SIZE, Some(T), a, b);
+            if N <= 4 {
+                // with 5 segments the current planner violates this: see c18_plan_source_reuse_n5_s30_t100
+                assert!(check_no_reuse(&plan, a, b), "segment is both a source and a destination");
             }
+            check_later_destinations::<N>(&plan, &wp, SIZE, a, b);
+            let elig = count_eligible::<N>(&frozen, &wp, T);
             if elig < 2 {
                 assert!(plan.moves.is_empty(), "fewer than two mergeable segments must give an empty plan");
             }
-            kani::cover!(plan.moves.len() == N - 1, "every other segment merged");
-            kani::cover!($thr <= 0.5 || (plan.moves.len() == 1 && elig == N), "a source did not fit (reachable only above threshold 0.5)");
+            crate::witness!(1, plan.moves.len() == N - 1, "every other segment merged");
+            crate::witness!(2, $thr <= 0.5 || (plan.moves.len() == 1 && elig == N), "a source did not fit (reachable only above threshold 0.5)");
+            crate::witness!(3, N < 5 || plan.target_segments.len() == 2, "a second destination receives a move (needs 5 segments)");
             std::mem::forget(plan);
             std::mem::forget(segs);
-        }
+        });
     };
 }
 
 // @family prop=C18 tier=quick timeout=600 mem=16 role=merge-plan-general
-// @bounds N segments (n<N> in the name), state symbolic, write_position symbolic over all u64, segment_size and utilization_threshold concrete per harness (s10/s30/s40 = 2^10/2^30/2^40, t25/t50/t100 = 0.25/0.5/1.0); move indices a,b symbolic
+// @bounds N segments (n<N> in the name), state symbolic, write_position symbolic over all u64, segment_size and utilization_threshold concrete per harness (s10/s30/s40 = 2^10/2^30/2^40, t25/t50/t100 = 0.25/0.5/1.0); move indices a,b symbolic (= for all moves / all pairs of moves)
 // @encodes cascette_client_storage::storage::compaction::plan_archive_merge
-// @assumes tracing neutralised (3 stubs); segment headers = all-zero SegmentHeader (the planner never reads the header); oracle threshold T = threshold*segment_size as an integer (exact: dyadic values below 2^53)
-// @catches move beyond segment_size, overlapping moves into one destination, thawed/empty/high-utilisation segment used as source or destination, source moved twice, source reused as destination, wrong total_bytes, wrong length/offset of a move, stale destination cursor after switching destination
+// @assumes tracing neutralised (3 stubs); exact std models: alloc::slice::stable_sort -> insertion sort, Vec::new -> with_capacity(8), Vec::push -> push without growth (capacity asserted), <[u16]>::contains -> loop; segment headers = all-zero SegmentHeader (the planner never reads the header); oracle threshold T = threshold*segment_size as an integer (exact: dyadic values below 2^53)
+// @catches move beyond segment_size, overlapping moves into one destination, thawed/empty/high-utilisation segment used as source or destination, source moved twice, source reused as destination, wrong total_bytes, wrong length/offset of a move, stale destination cursor after switching destination, bookkeeping lists out of step with the moves
 plan_general!(c18_plan_general_n3_s10_t25, 3, 5, 1u64 << 10, 0.25, 1u64 << 8);
+plan_general!(c18_plan_general_n3_s10_t100, 3, 5, 1u64 << 10, 1.0, 1u64 << 10);
+plan_general!(c18_plan_general_n3_s30_t50, 3, 5, 1u64 << 30, 0.5, 1u64 << 29);
+plan_general!(c18_plan_general_n3_s30_t100, 3, 5, 1u64 << 30, 1.0, 1u64 << 30);
+plan_general!(c18_plan_general_n3_s40_t25, 3, 5, 1u64 << 40, 0.25, 1u64 << 38);
+plan_general!(c18_plan_general_n3_s40_t50, 3, 5, 1u64 << 40, 0.5, 1u64 << 39);
 // @end
 
-#[kani::proof]
-#[kani::unwind(5)]
-#[kani::stub(alloc::slice::stable_sort, crate::c18_plan::stable_sort_model)]
-#[kani::stub(tracing_core::callsite::DefaultCallsite::interest, crate::tracing_stubs::interest_never)]
-#[kani::stub(tracing::__macro_support::__is_enabled, crate::tracing_stubs::is_enabled_false)]
-#[kani::stub(tracing_core::event::Event::dispatch, crate::tracing_stubs::dispatch_nop)]
-fn scratch_v1() {
+// ---- the destination's own bytes ------------------------------------------------------------------
+// Populations satisfy the representation invariant of real segments (SegmentInfo::new starts the
+// write position behind the 480-byte header, the allocator never moves it beyond the segment), so a
+// counterexample is a population the allocator can produce.
+macro_rules! plan_live_bytes {
+    ($name:ident, $n:expr, $uw:literal, $size:expr, $thr:expr) => {
+        plan_harness!($name, $uw, {
+            const N: usize = $n;
+            const SIZE: u64 = $size;
+            let frozen: [bool; N] = kani::any();
+            let wp: [u64; N] = kani::any();
+            let a: usize = kani::any();
+            let mut k = 0;
+            while k < N {
+                kani::assume(wp[k] >= SEGMENT_HEADER_SIZE as u64 && wp[k] <= SIZE);
+                k += 1;
+            }
+            let segs = population::<N>(&frozen, &wp);
+            let plan = plan_archive_merge(&segs, $thr, SIZE);
+            if a < plan.moves.len() {
+                let m = &plan.moves[a];
+                let d = m.dest_segment as usize;
+                assert!(d < N, "move names a segment outside the population");
+                assert!(m.dest_offset >= wp[d], "KF: move targets bytes the destination segment already uses (dest_offset < destination's write_position)");
+            }
+            // witness after the assertion (the driver replays the first generated playback test, which
+            // must be the assertion's, not the witness's)
+            crate::witness!(1, a < plan.moves.len(), "plan has a move");
+            std::mem::forget(plan);
+            std::mem::forget(segs);
+        });
+    };
+}
+macro_rules! plan_overfill {
+    ($name:ident, $n:expr, $uw:literal, $size:expr, $thr:expr) => {
+        plan_harness!($name, $uw, {
+            const N: usize = $n;
+            const SIZE: u64 = $size;
+            let frozen: [bool; N] = kani::any();
+            let wp: [u64; N] = kani::any();
+            let d: usize = kani::any();
+            kani::assume(d < N);
+            let mut k = 0;
+            while k < N {
+                kani::assume(wp[k] >= SEGMENT_HEADER_SIZE as u64 && wp[k] <= SIZE);
+                k += 1;
+            }
+            let segs = population::<N>(&frozen, &wp);
+            let plan = plan_archive_merge(&segs, $thr, SIZE);
+            let n = plan.moves.len();
+            assert!(n < N, "more moves than segments - 1");
+            let mut incoming = 0u128;
+            let mut k = 0;
+            while k < N {
+                if k < n && plan.moves[k].dest_segment as usize == d {
+                    incoming += plan.moves[k].length as u128;
+                }
+                k += 1;
+            }
+            assert!(wp[d] as u128 + incoming <= SIZE as u128, "KF: destination's own used bytes plus the bytes moved into it exceed segment_size");
+            crate::witness!(1, incoming > 0, "segment receives data");
+            std::mem::forget(plan);
+            std::mem::forget(segs);
+        });
+    };
+}
+
+// @family prop=C18 tier=quick timeout=600 mem=16 role=merge-plan-live-bytes
+// @bounds N segments (n<N>), state symbolic, write_position symbolic in [480 (segment header), segment_size]; segment_size / threshold concrete per harness (s30 = 2^30 = the real SEGMENT_SIZE, t50 = 0.5, t100 = 1.0); move index symbolic
+// @encodes cascette_client_storage::storage::compaction::plan_archive_merge
+// @assumes same stubs/models as merge-plan-general; write positions restricted to what SegmentInfo::new / SegmentAllocator::allocate can produce (>= SEGMENT_HEADER_SIZE, <= segment_size)
+// @catches destination cursor not starting at the destination's write position (data directed onto live bytes), cursor reset to 0 when switching destination
+plan_live_bytes!(c18_plan_live_bytes_n2_s30_t50, 2, 4, 1u64 << 30, 0.5);
+plan_live_bytes!(c18_plan_live_bytes_n3_s30_t100, 3, 5, 1u64 << 30, 1.0);
+// @end
+// @family prop=C18 tier=quick timeout=600 mem=16 role=merge-plan-overfill
+// @bounds N segments (n<N>), state symbolic, write_position symbolic in [480, segment_size]; segment_size 2^30, threshold 0.5 / 1.0; destination index symbolic
+// @encodes cascette_client_storage::storage::compaction::plan_archive_merge
+// @assumes same stubs/models as merge-plan-general; write positions >= SEGMENT_HEADER_SIZE and <= segment_size
+// @catches capacity check that ignores what the destination already holds (segment filled beyond its size)
+plan_overfill!(c18_plan_overfill_n2_s30_t100, 2, 4, 1u64 << 30, 1.0);
+plan_overfill!(c18_plan_overfill_n3_s30_t50, 3, 5, 1u64 << 30, 0.5);
+// @end
+
+// @family prop=C18 tier=quick timeout=600 mem=16 role=merge-plan-general-n4
+// @bounds 4 segments, state symbolic, write_position symbolic over all u64, segment_size / threshold concrete per harness as in the quick family; move indices symbolic
+// @encodes cascette_client_storage::storage::compaction::plan_archive_merge
+// @assumes same stubs/models as the quick merge-plan-general family
+// @catches as the quick family, plus errors that need three moves or a destination switch followed by another move
+plan_general!(c18_plan_general_n4_s10_t50, 4, 6, 1u64 << 10, 0.5, 1u64 << 9);
+plan_general!(c18_plan_general_n4_s30_t100, 4, 6, 1u64 << 30, 1.0, 1u64 << 30);
+plan_general!(c18_plan_general_n4_s40_t25, 4, 6, 1u64 << 40, 0.25, 1u64 << 38);
+// @end
+
+// @family prop=C18 tier=quick timeout=900 mem=16 role=merge-plan-general-n5
+// @bounds 5 segments (smallest population in which a second destination receives a move), state symbolic, write_position symbolic over all u64, segment_size / threshold concrete per harness; move indices symbolic
+// @encodes cascette_client_storage::storage::compaction::plan_archive_merge
+// @assumes same stubs/models as merge-plan-general; "source never reused as destination" is not asserted here (own harness, fails on the current tree)
+// @catches as merge-plan-general, plus: cursor of a later destination not starting at that destination's write_position (reset to 0 / stale value of the previous destination), later destination overfilled
+plan_general!(c18_plan_general_n5_s30_t100, 5, 7, 1u64 << 30, 1.0, 1u64 << 30);
+plan_general!(c18_plan_general_n5_s10_t50, 5, 7, 1u64 << 10, 0.5, 1u64 << 9);
+// @end
+
+// ---- a segment emptied as a source must not become a destination -----------------------------------
+// Needs 5 segments in the current planner: two moves into the first destination, one source that
+// does not fit (destination switches to sources[1], which was already moved away), one more move.
+// @harness prop=C18 tier=quick timeout=900 mem=16 role=merge-plan-source-reuse
+// @bounds 5 segments, state symbolic, write_position symbolic in [480, 2^30], segment_size 2^30, threshold 1.0; move indices symbolic
+// @encodes cascette_client_storage::storage::compaction::plan_archive_merge
+// @assumes same stubs/models as merge-plan-general; write positions >= SEGMENT_HEADER_SIZE and <= segment_size
+// @catches destination cursor advancing onto a segment that an earlier move already emptied (its data would be moved into a segment scheduled for deletion / data moved twice)
+plan_harness!(c18_plan_source_reuse_n5_s30_t100, 7, {
+    const N: usize = 5;
+    const SIZE: u64 = 1 << 30;
+    let frozen: [bool; N] = kani::any();
+    let wp: [u64; N] = kani::any();
+    let a: usize = kani::any();
+    let b: usize = kani::any();
+    let mut k = 0;
+    while k < N {
+        kani::assume(wp[k] >= SEGMENT_HEADER_SIZE as u64 && wp[k] <= SIZE);
+        k += 1;
+    }
+    let segs = population::<N>(&frozen, &wp);
+    let plan = plan_archive_merge(&segs, 1.0, SIZE);
+    assert!(check_no_reuse(&plan, a, b), "KF: segment emptied as the source of one move is the destination of another move");
+    crate::witness!(1, plan.moves.len() >= 3, "plan with three moves");
+    std::mem::forget(plan);
+    std::mem::forget(segs);
+});
+
+// ---- symbolic segment_size and threshold ---------------------------------------------------------
+// @harness prop=C18 tier=quick timeout=900 mem=16 role=merge-plan-symbolic-config
+// @bounds 3 segments, state and write_position symbolic, segment_size symbolic in [1, 2^40], utilization_threshold symbolic finite f64 in (0, 1]; move indices symbolic
+// @encodes cascette_client_storage::storage::compaction::plan_archive_merge
+// @assumes same stubs/models as merge-plan-general; the "below threshold" part of source eligibility is not re-checked here (the only oracle would be the implementation's own f64 expression); threshold <= 1 (documented meaning: a utilisation)
+// @catches as merge-plan-general for arbitrary (non power-of-two) sizes and thresholds: f64 rounding letting a move run beyond segment_size or overlap another
+plan_harness!(c18_plan_symbolic_config_n3, 5, {
     const N: usize = 3;
     let frozen: [bool; N] = kani::any();
     let wp: [u64; N] = kani::any();
+    let a: usize = kani::any();
+    let b: usize = kani::any();
+    let size: u64 = kani::any();
+    let thr: f64 = kani::any();
+    kani::assume(size >= 1 && size <= 1 << 40);
+    kani::assume(thr > 0.0 && thr <= 1.0);
     let segs = population::<N>(&frozen, &wp);
-    let plan = plan_archive_merge(&segs, 0.25, 1024);
-    assert!(plan.moves.len() < 3);
+    let plan = plan_archive_merge(&segs, thr, size);
+    check_plan::<N>(&plan, &frozen, &wp, size, None, a, b);
+    assert!(check_no_reuse(&plan, a, b), "segment is both a source and a destination");
+    crate::witness!(1, plan.moves.len() == N - 1 && size % 1000 == 7, "two moves with a non power-of-two size");
     std::mem::forget(plan);
     std::mem::forget(segs);
-}
+});
+
+// @harness prop=C18 tier=thorough timeout=3000 mem=24 role=merge-plan-symbolic-config-n5
+// @bounds 5 segments, state and write_position symbolic, segment_size symbolic in [1, 2^40], utilization_threshold symbolic finite f64 in (0, 1]; move and segment indices symbolic
+// @encodes cascette_client_storage::storage::compaction::plan_archive_merge
+// @assumes as merge-plan-symbolic-config; "source never reused as destination" not asserted (own harness)
+// @catches as merge-plan-general-n5 for arbitrary sizes and thresholds
+plan_harness!(c18_plan_symbolic_config_n5, 7, {
+    const N: usize = 5;
+    let frozen: [bool; N] = kani::any();
+    let wp: [u64; N] = kani::any();
+    let a: usize = kani::any();
+    let b: usize = kani::any();
+    let size: u64 = kani::any();
+    let thr: f64 = kani::any();
+    kani::assume(size >= 1 && size <= 1 << 40);
+    kani::assume(thr > 0.0 && thr <= 1.0);
+    let segs = population::<N>(&frozen, &wp);
+    let plan = plan_archive_merge(&segs, thr, size);
+    check_plan::<N>(&plan, &frozen, &wp, size, None, a, b);
+    check_later_destinations::<N>(&plan, &wp, size, a, b);
+    crate::witness!(1, plan.moves.len() == 3 && plan.target_segments.len() == 2, "two destinations in one plan");
+    std::mem::forget(plan);
+    std::mem::forget(segs);
+});
